@@ -41,9 +41,10 @@ M(m)   == [k |-> "m", m |-> m]
 (* nonterminal: name, depth, top (not inside a compound command), nh (no    *)
 (* here-document may be announced here), adj (first terminal touches the    *)
 (* previous token), end (separator carried by the last and-or list)         *)
-NT(n, d, top, nh, adj, end) == [k |-> "n", n |-> n, d |-> d, top |-> top, nh |-> nh, adj |-> adj, end |-> end, par |-> FALSE]
+NT(n, d, top, nh, adj, end) == [k |-> "n", n |-> n, d |-> d, top |-> top, nh |-> nh, adj |-> adj, end |-> end, par |-> FALSE, bq |-> FALSE]
 InPar(x) == [x EXCEPT !.par = TRUE]
-P(nt, x) == [x EXCEPT !.par = nt.par]    \* inherit "inside parentheses"
+P(nt, x) == [x EXCEPT !.par = nt.par, !.bq = nt.bq]    \* inherit "inside parentheses" and "inside backquotes"
+InBq(x) == [x EXCEPT !.bq = TRUE]        \* inside a backquoted substitution no other backquote may appear (it would have to be escaped)
 
 A(c, r) == [c |-> c, r |-> r]
 
@@ -101,9 +102,9 @@ PartAlts(nt, g, second) ==
   \o [i \in 1..Len(PEOps) |->
         A(1, <<TG("${v" \o PEOps[i], g), M("pe["), M("braces"), M("name:v"), M("peop:" \o PEOps[i]),
                P(nt, NT("peword", nt.d + 1, FALSE, TRUE, TRUE, "")), TA("}"), M("]pe")>>)]
-  \o << A(1, <<TG("$(", g), M("cs$["), InPar(NT("cslist", nt.d + 1, FALSE, TRUE, TRUE, "")), TCA(")"), M("]cs")>>),
-        A(1, <<TG("`", g), M("cs`["), NT("cslist", nt.d + 1, FALSE, TRUE, TRUE, ""), TA("`"), M("]cs")>>),
-        A(1, <<TG("$(", g), M("cs$["), InPar(NT("cshd", nt.d + 1, FALSE, FALSE, TRUE, "")), TC(")"), M("]cs")>>) >>
+  \o << A(1, <<TG("$(", g), M("cs$["), InPar(P(nt, NT("cslist", nt.d + 1, FALSE, TRUE, TRUE, ""))), TCA(")"), M("]cs")>>) >>
+  \o (IF nt.bq THEN <<>> ELSE << A(1, <<TG("`", g), M("cs`["), InBq(P(nt, NT("cslist", nt.d + 1, FALSE, TRUE, TRUE, ""))), TA("`"), M("]cs")>>) >>)
+  \o (IF nt.bq THEN <<>> ELSE << A(1, <<TG("$(", g), M("cs$["), InPar(P(nt, NT("cshd", nt.d + 1, FALSE, FALSE, TRUE, ""))), TC(")"), M("]cs")>>) >>)
 
 (***************************************************************************)
 (* Here-document pool: [op, word (source of the delimiter word), wm (its   *)
@@ -404,11 +405,11 @@ Alts(nt) ==
             A(1, <<M("w["), TA("${v:-${w}}"), M("pe["), M("braces"), M("name:v"), M("peop::-"), M("w["), M("pe["), M("braces"), M("name:w"), M("]pe"), M("]w"), M("]pe"), M("]w")>>),
             A(1, <<M("w["), TA("*/"), M("lit:*/"), M("]w")>>),
             \* command substitutions inside the word
-            A(1, <<M("w["), TA("`a`"), M("cs`["), M("ln["), M("ao["), M("pl["), M("c["), M("simple["), M("w["), M("lit:a"), M("]w"), M("]simple"), M("]c"), M("]pl"), M("]ao"), M("]ln"), M("]cs"), M("]w")>>),
             A(1, <<M("w["), TA("x$(a)"), M("lit:x"), M("cs$["), M("ln["), M("ao["), M("pl["), M("c["), M("simple["), M("w["), M("lit:a"), M("]w"), M("]simple"), M("]c"), M("]pl"), M("]ao"), M("]ln"), M("]cs"), M("]w")>>),
             \* literal text in front of an expansion / a quotation inside the word
             A(1, <<M("w["), TA("b$c"), M("lit:b"), M("pe["), M("name:c"), M("]pe"), M("]w")>>),
             A(1, <<M("w["), TA("/t/${U}\"q\"r"), M("lit:/t/"), M("pe["), M("braces"), M("name:U"), M("]pe"), M("dq["), M("lit:q"), M("]dq"), M("lit:r"), M("]w")>>) >>
+         \o (IF nt.bq THEN <<>> ELSE << A(1, <<M("w["), TA("`a`"), M("cs`["), M("ln["), M("ao["), M("pl["), M("c["), M("simple["), M("w["), M("lit:a"), M("]w"), M("]simple"), M("]c"), M("]pl"), M("]ao"), M("]ln"), M("]cs"), M("]w")>>) >>)
     [] nt.n = "cslist" ->   \* body of a command substitution: touches both delimiters, no here-document
          << A(0, <<M("ln["), P(nt, NT("list", nt.d, FALSE, TRUE, TRUE, "")), M("]ln")>>) >>
     [] nt.n = "cshd" ->     \* a command substitution that holds a here-document (and its newlines)
